@@ -867,13 +867,14 @@ fn big_cases(run: &mut Runner, variants: &[Variant]) {
         (pick("SelectZeroSmall<3,13>"), 12),
     ];
     for (gi, &(gap, gname)) in gaps.iter().enumerate() {
-        for (v, l) in one_sel.iter().chain(zero_sel.iter()) {
+        for (vi, (v, l)) in one_sel.iter().chain(zero_sel.iter()).enumerate() {
             let zero_only = v.zero_only();
             // one case in four spans three super-blocks (2^33+ bits)
             let extra = if (k + gi as u64) % 4 == 3 { 1 } else { 0 };
             let stratum = format!("big/{}{}/tail=fresh", gname, if extra > 0 { ",2^33+bits" } else { "" });
             let l = *l;
-            if !thorough && k % 7 != 0 {
+            // quick tier: every variant with one of the three gaps
+            if !thorough && (vi + gi) % 3 != 0 {
                 k += 1;
                 continue;
             }
